@@ -1,0 +1,31 @@
+//go:build verif
+// +build verif
+
+package api
+
+import (
+	"net/http"
+
+	pb "massnet.org/mass/api/proto"
+	"massnet.org/mass/poc/engine"
+	engine_v2 "massnet.org/mass/poc/engine.v2"
+)
+
+// This file exists only under the build tag "verif": it exposes the gateway's access control and the
+// workspace rendering helpers to the conformance harness in /verif.  It adds no behaviour.
+
+func VerifAccessControlFunc(whitelist []string, lanPrefix []string) (func(addr string) bool, error) {
+	return getIPAccessControlFunc(whitelist, lanPrefix)
+}
+
+func VerifAccessControlHandler(h http.Handler, isAllowedAddress func(addr string) bool) http.Handler {
+	return accessControlHandler(h, isAllowedAddress)
+}
+
+func VerifWorkSpace(wsi engine.WorkSpaceInfo) (*pb.WorkSpace, error) {
+	return workSpaceInfo2ProtoWorkSpace(wsi)
+}
+
+func VerifWorkSpaceV2(wsi engine_v2.WorkSpaceInfo) (*pb.WorkSpaceV2, error) {
+	return workSpaceInfo2ProtoWorkSpaceV2(wsi)
+}
